@@ -175,7 +175,7 @@ class Gen:
         if k == 'array':
             v = list(v)
             et = t['elem']
-            if et['k'] == 'multimap' or (et['k'] == 'struct' and self.sch['structs'][et['id']].get('dict')):
+            if (et['k'] == 'multimap' or (et['k'] == 'struct' and self.sch['structs'][et['id']].get('dict'))) and not os.environ.get('VERIF_NO_APPEND_GUARD'):
                 # elements handed over with Append: only extension / truncation between records
                 # (clearing and re-appending inside one record is the known finding C01-array-regrow)
                 c = r.below(3)
